@@ -1077,4 +1077,28 @@ example : ∀ q ∈ (addAll C10Witness.cB empty C10Witness.bigCups).iter C10Witn
   subst hq
   trivial
 
+/-- **Grouping and fitting never writes a saturated fraction**: for every converter, every hash order and every list
+    of quantities whose own numbers are not saturated (every plain number is; a written `1 1/2` is), everything the
+    group built from them by `add` and then fitted yields consists of plain numbers and non-saturated fractions.
+    (`add` stores an input as it is or a sum, and a sum is always a plain number — `Value::try_add`; `fit`:
+    `C10_fit_never_saturates`.)  Together with `C10_fit_conserves_beyond_u32`: the group holds exactly the inputs
+    AND what it shows for them is honest, with no bound on the amounts. -/
+theorem C10_add_fit_never_saturates (c : Converter Rat) (ord : MapOrder Rat) (hord : ord.IsPerm)
+    (qs : List (SQuantity Rat)) (hqs : ∀ q ∈ qs, q.value.AllNum Number.NotSaturated) :
+    (∀ q ∈ (addAll c empty qs).iter ord, q.value.AllNum Number.NotSaturated) ∧
+    (∀ q ∈ ((addAll c empty qs).fit c).1.iter ord, q.value.AllNum Number.NotSaturated) := by
+  have h1 := fnum_iter_of_allNum ord hord
+    (fnum_addAll (c := c) (fsat_approxClosed c).regular qs empty fnum_empty hqs)
+  exact ⟨h1, (C10_fit_never_saturates c).2 ord _ h1⟩
+
+/-- its hypothesis holds of the two large cup quantities (plain numbers) and of a written `1 1/2` -/
+example : (∀ q ∈ C10Witness.bigCups, q.value.AllNum Number.NotSaturated) ∧
+    (Number.fraction 1 1 2 0 : Number Rat).NotSaturated := by
+  refine ⟨?_, ?_⟩
+  · intro q hq
+    simp only [C10Witness.bigCups, List.mem_cons, List.not_mem_nil, or_false] at hq
+    rcases hq with rfl | rfl <;> trivial
+  · simp only [Number.NotSaturated]
+    decide +kernel
+
 end Cook
